@@ -27,6 +27,7 @@ def run(w: World, rep: Report):
              '(callee tape); resets only on tapes the handler owns', floor=5)
     rep.rule('C07.R4', 'every handler on a recursion cycle through run_tape is dominated by a '
              'callstack_count < callstack_limit guard and hands the sub-tape a strictly larger count', floor=6)
+    rep.rule('C07.R4b', 'no execution sub-tape is constructed with a call-stack count below its parent\'s', floor=5)
     rep.rule('C07.R5', 'every loop of the VM has a recognised variant (pointer progress, bounded counter, '
              'shrinking difference, bounded range, finite collection, popping body)', floor=40)
     rep.rule('C07.R6', 'no script-chosen integer reaches an allocation sink unless bounded by a Stack/Tape '
@@ -444,6 +445,19 @@ def _r4(w: World, rep: Report):
                               why='' if ok else f'call-depth violation does not raise {SCRIPT_ERR}')
     if n < 6:
         raise AnalysisError('fewer than 6 run_tape call sites in handlers')
+    # R4b: no execution sub-tape starts with a smaller count than its parent (the budget is never reset)
+    from .rules_c09 import _count_ge_parent, _site_tag
+    for fname, fi in sorted(w.handlers.items()):
+        own = fi.params[0]
+        sites = tape_sites(w, fi)
+        for s in sites:
+            if s.role() != 'exec':
+                continue
+            e = s.field_expr('callstack_count', fields)
+            ok = e is not None and _count_ge_parent(e, own)
+            rep.check('C07.R4b', f'functions.{fname}|{_site_tag(fi, s, sites)}|count-not-reset', ok, line=s.line,
+                      file=RELF, why='' if ok else 'the sub-tape starts with a call-stack count below its parent\'s: '
+                      'calls / evaluations made from inside it escape the call-stack limit')
 
 
 def _strictly_larger(e, own) -> bool:
